@@ -26,6 +26,7 @@ Definition chk_splitlines (c : str * list str) : bool :=
   let '(s, ls) := c in list_eqb str_eqb (splitlines s) ls.
 
 Section WithConfig.
+  Variable keep : bool.            (* which getblock: repaired (true) or pinned (false) *)
   Variables t_suffix t_enc t_strict t_common : list (str * str).
   Variable default_mime : str.
   Variable admin : str.
@@ -45,7 +46,7 @@ Section WithConfig.
   (* "!" : (entry the protocol rendered, response with dates masked) *)
   Definition chk_info (c : entry * str) : bool :=
     let '(e, resp) := c in
-    optstr_eqb (gplus_info admin srvname srvport MASKED_DATE e) (Some resp).
+    optstr_eqb (gplus_info keep admin srvname srvport MASKED_DATE e) (Some resp).
 
   (* "$" / "+" on a directory:
      ((method is "$", (directory entry, entries in rendering order)), response) — the entries
@@ -55,7 +56,7 @@ Section WithConfig.
     let meth := if dollar then GopherPlusDir else DocumentOnly in
     optstr_eqb
       (option_map (app (size_line dir))
-         (concat_opt (map (renderobjinfo admin srvname srvport MASKED_DATE meth) rendered)))
+         (concat_opt (map (renderobjinfo keep admin srvname srvport MASKED_DATE meth) rendered)))
       (Some resp).
 
   (* writedir's choice of what to render: ((abstract_headers, doabstracts), (dir, entries)) vs rendered selectors/names *)
